@@ -190,7 +190,7 @@ def parse_trace(path):
     res = {}
     if not os.path.exists(path):
         return res
-    for line in open(path):
+    for line in open(path, errors="replace"):     # a corrupted implementation may print garbage
         line = line.rstrip("\n")
         if not line:
             continue
